@@ -3872,7 +3872,7 @@ LEAN_OBLIGATIONS.update({
                      "Tumfl.Props.C04_terminates", "Tumfl.Props.C04_outcome_unique", "Tumfl.Props.C04_formats_valid", "Tumfl.Props.C04_formats_valid_final",
                      "Tumfl.Props.C04_expr_cycle_diverges",
                      "Tumfl.Props.C04_faithful", "Tumfl.Props.C04_faithful_dedup", "Tumfl.Props.C04_spec_deterministic", "Tumfl.Props.C04_faithful_unique",
-                     "Tumfl.Props.C04_spec_forget", "Tumfl.Props.C04_dedup", "Tumfl.Props.C04_faithful_example", "Tumfl.Props.C04_spec_strict"],
+                     "Tumfl.Props.C04_spec_forget", "Tumfl.Props.C04_dedup", "Tumfl.Props.C04_faithful_example", "Tumfl.Props.C04_spec_strict", "Tumfl.Props.C12_nothing_left"],
         extractors=["Ladder", "LexTables", "FmtTables", "Brackets"],
         tie_names=["T2:resolve (model resolver on the abstract file system vs the real resolver on a real directory tree: whole resulting AST or the error)",
                    "T2:format (formatting of the result goes through the same model)"],
@@ -3884,13 +3884,14 @@ LEAN_OBLIGATIONS.update({
                             "K4 (statement-level require of a file with a top-level return) is a known finding"],
     ),
     "C12": dict(
-        modules=["Tumfl.Props.C04"],
+        modules=["Tumfl.Props.C04", "Tumfl.Props.C04Faithful"],
         obligations=["Tumfl.Props.C12_wrong_args_stmt", "Tumfl.Props.C12_wrong_args_expr", "Tumfl.Props.C12_missing_stmt", "Tumfl.Props.C12_missing_expr",
                      "Tumfl.Props.C12_untouched", "Tumfl.Props.C12_errors", "Tumfl.Props.C04_lookup_none", "Tumfl.Props.C12_stmt_cycles_terminate",
-                     "Tumfl.Props.C12_cycle_example", "Tumfl.Props.C04_terminates"],
+                     "Tumfl.Props.C12_cycle_example", "Tumfl.Props.C04_terminates",
+                     "Tumfl.Props.C12_nothing_left", "Tumfl.Props.C12_ok_no_bad_require", "Tumfl.Props.C04_faithful"],
         extractors=["Ladder", "LexTables"],
         tie_names=["T2:resolve (faulty trees: exception kind and token of the offending call)"],
-        partial_hypotheses=["statement-level cycles terminate: proved (C12_stmt_cycles_terminate); `the first such call in visit order raises`: T2 and oracle streams; is_file on a directory: the abstract "
+        partial_hypotheses=["statement-level cycles terminate: proved (C12_stmt_cycles_terminate); nothing is silently left behind: proved (C12_nothing_left - no call of the bare name require remains in a successfully resolved tree, whatever its arguments); `the first such call in visit order raises`: T2 and oracle streams; is_file on a directory: the abstract "
                             "file system has files and directories as disjoint sets, tied by T2 on real trees with directory traps"],
     ),
     "C20": dict(
